@@ -130,6 +130,15 @@ check("C09", "isolation",
       "foreign object; when it is permitted it must (sanity, else undecided). Includes the case where the foreign object is already loaded for its own namespace.",
       ENUM_NOTE + "file:// references and Gateway certificateRefs are not in this check.", "DESIGN.md 6 C09")
 
+check("C10", "gateway",
+      "TLA+ spec GatewayAdmission.tla (independent evaluation of the attachment rules + what an admitted pair produces; Weights.tla contract for "
+      "backendRefs); TLC enumerates the two factors of the admission conjunction exhaustively and simulates histories of mutated worlds; the real "
+      "pipeline (real cache class validation, real gateway converter) writes each configuration; TLC judges every world (TraceGateway.tla)",
+      "Enumerated-input contract validation: for every (listener, route) pair of every world the host/path rule or TCP port is produced iff the pair "
+      "is admitted, nothing unattributable is produced (incl. through a foreign-class gateway), and the servers of the route backend are the replicas "
+      "of its backendRefs weighted per the Weights contract (missing weight = 1).",
+      ENUM_NOTE + "certificateRefs, filters, header matches and v1beta1/v1alpha2 Gateway objects are outside the check.", "DESIGN.md 6 C10")
+
 NOT_BUILT = "check not built yet (planned, DESIGN.md section 6); no claim made until the check exists"
 
 
